@@ -1,4 +1,4 @@
-import LentilVerif.Model.PlaneType
+import LentilVerif.Lemmas.PlaneType
 /-! C08 — the plane-type state machine follows the documented table.
 Every definition named `Gen.*` below is regenerated from /repo on each run: `codeMul`/`codePropagate`/`classPtype`/… from
 the Python sources, `docMul`/`docPropagate`/`docClassPtype` from the RST tables. -/
@@ -54,28 +54,6 @@ theorem final_eq_doc : ∀ (prog : List Op) (w : WType),
     simp only [finalWith, h]
     exact ih _
 
-/-- (a property of the model's `next`, true by construction — NOT evidence about the code; the clause "a refused operation
-leaves both operands unchanged" is carried by the snapshot oracle only) a refused operation leaves the wavefront type unchanged, and a program consisting only of refused operations ends
-where it started (the value-level part — both operands' arrays untouched — is checked by the correspondence snapshots) -/
-theorem refusal_preserves_state :
-    (∀ w op e, codeStep w op = .refused e → next w (codeStep w op) = w)
-    ∧ (∀ (prog : List Op) (w : WType), (∀ r ∈ codeRun w prog, ∃ e, r = .refused e) →
-        finalWith codeMul codePropagate w prog = w) := by
-  refine ⟨fun w op e h => by rw [h]; rfl, ?_⟩
-  intro prog
-  induction prog with
-  | nil => intro w _; rfl
-  | cons op rest ih =>
-    intro w h
-    have h0 := h (stepWith codeMul codePropagate w op) (by simp [codeRun, runWith])
-    obtain ⟨e, he⟩ := h0
-    have hn : next w (stepWith codeMul codePropagate w op) = w := by rw [he]; rfl
-    simp only [finalWith, hn]
-    apply ih
-    intro r hr
-    apply h
-    simp only [codeRun, runWith, hn, List.mem_cons]
-    exact Or.inr hr
 
 /-- the wavefront type reached by any program is always one of none/pupil/image and, once pupil or image, the wavefront
 never returns to `none` -/
@@ -85,21 +63,7 @@ theorem typed_wavefront_stays_typed : ∀ w op w', w ≠ .none → codeStep w op
   | mul p => cases w <;> cases p <;> cases w' <;> simp [codeStep, stepWith, codeMul]
   | prop => cases w <;> cases w' <;> simp [codeStep, stepWith, codePropagate]
 
-theorem mem_WType_all : ∀ w : WType, w ∈ WType.all := by
-  intro w; cases w <;> simp [WType.all]
 
-/-- what `classConforms c = true` means: the class has its documented ptype, acts exactly as the documented table says for
-it, and can be applied to some compatible wavefront -/
-theorem classConforms_spec (c : PlaneClass) (h : classConforms c = true) :
-    ∀ p, docClassPtype c = some p →
-      classPtype c = p ∧ (∀ w, classMul c w = docMul w p) ∧ (∃ w w', classMul c w = .ok w') := by
-  intro p hp
-  simp only [classConforms, hp, Bool.and_eq_true, beq_iff_eq, List.all_eq_true, List.any_eq_true] at h
-  obtain ⟨⟨h1, h2⟩, w, _, hw⟩ := h
-  refine ⟨h1, fun w => h2 w (mem_WType_all w), w, ?_⟩
-  cases hr : classMul c w with
-  | ok w' => exact ⟨w', rfl⟩
-  | refused e => rw [hr] at hw; cases hw
 
 /- Full-strength statement (FALSE on the current tree, known finding KF-C08-rotate-flip): `∀ c, classConforms c = true`,
    i.e. every documented class has its documented ptype, acts as the documented table says and is applicable. -/
@@ -117,8 +81,8 @@ theorem undocumented_classes_follow_base :
     (∀ w, classMul .Grism w = classMul .DispersiveTilt w) ∧ (∀ w, classMul .LensletArray w = classMul .Plane w) := by
   constructor <;> intro w <;> cases w <;> rfl
 
-/-- class-level programs: for every program whose planes are table-driven (decidable per class on the generated table; all
-public classes but Image — which forces `image`, as documented — and the broken Rotate/Flip), the trace is the documented one -/
+/-- class-level programs: for every program whose planes are table-driven (decidable per class on the generated table; see
+`table_driven_all_but_rotate_flip`: today all public classes but the broken Rotate/Flip; Image's forced `image` coincides with the table), the trace is the documented one -/
 theorem class_run_eq_doc_partial : ∀ (prog : List COp) (w : WType),
     (∀ c, COp.mul c ∈ prog → classTableDriven c = true) →
     classRun w prog = docRun w (prog.map COp.toOp) := by
@@ -137,6 +101,36 @@ theorem class_run_eq_doc_partial : ∀ (prog : List COp) (w : WType),
     simp only [classRun, docRun, runWith, List.map_cons, hs]
     refine congrArg _ ?_
     exact ih _ (fun c hc => h c (by simp [hc]))
+
+/-- which classes go through the documented table unchanged: every public class except (today) Rotate and Flip —
+by evaluation over the generated class table -/
+theorem table_driven_all_but_rotate_flip : ∀ c, classTableDriven c = true ∨ c = .Rotate ∨ c = .Flip := by
+  intro c
+  cases c <;> first | exact Or.inl rfl | exact Or.inr (Or.inl rfl) | exact Or.inr (Or.inr rfl)
+
+/-- class-level programs without Rotate/Flip: the trace is the documented one, for every program and start type -/
+theorem class_run_eq_doc : ∀ (prog : List COp) (w : WType),
+    (∀ c, COp.mul c ∈ prog → c ≠ .Rotate ∧ c ≠ .Flip) →
+    classRun w prog = docRun w (prog.map COp.toOp) := by
+  intro prog w h
+  apply class_run_eq_doc_partial
+  intro c hc
+  rcases table_driven_all_but_rotate_flip c with h1 | h1 | h1
+  · exact h1
+  · exact absurd h1 (h c hc).1
+  · exact absurd h1 (h c hc).2
+
+/-- "a refused operation leaves both operands unchanged", structural part: no `multiply` of a public class writes an
+attribute of the plane or of the wavefront argument before it delegates to `Plane.multiply` (whose first statement is the
+ptype check — enforced by the generator). `Gen.classWritesBeforeSuper` is regenerated from the override bodies. -/
+theorem no_write_before_guard : ∀ c, classWritesBeforeSuper c = [] := by
+  intro c; cases c <;> rfl
+
+/-- `propagate_fft` types exactly like `propagate_dft` on a wavefront without fitted tilt, and refuses a tilt-carrying
+wavefront of every type with NotImplementedError (checked before the type) — the "dft or fft" of diffraction.rst -/
+theorem fft_typing :
+    (∀ w, codePropagateFft false w = codePropagate w) ∧ (∀ w, codePropagateFft true w = .refused .notImplementedError) := by
+  constructor <;> intro w <;> cases w <;> rfl
 
 /-- KNOWN FINDING witness (KF-C08-rotate-flip), stated so that it stays true when the defect is fixed upstream: IF
 `lentil.Rotate` / `lentil.Flip` do not conform, THEN it is because they are not constructed with their documented ptype
